@@ -1,7 +1,10 @@
 package verifsim
 
 import (
+	"bytes"
 	"fmt"
+	"os"
+	"path/filepath"
 	"strings"
 	"sync"
 	"syscall"
@@ -198,11 +201,29 @@ func (cs *clusterSim) writeOnce(p *Node, db string, t *Tape) {
 			r.Count("writer.walopen-failed")
 			return
 		}
+		if t.Chance(1, 12) {
+			// leave WAL mode: close the log as the last connection, then the
+			// rollback-journal transaction that rewrites the header
+			at, e := c.WalCloseLast(cur)
+			if e != 0 || at != "" {
+				r.Count("writer.leave-wal-skipped")
+				return
+			}
+			c.UnlockAll()
+			c.Mode = cs.jmode
+			res = c.WriteTx(TxProgram{NewSize: cur.N(), Outcome: OutCommit, SetWAL: 2}, cur)
+			r.Count("writer.leave-wal." + res.Outcome)
+			break
+		}
 		prog := GenWalProgram(t, cur.N(), cs.maxPages)
 		res = c.WalWriteTx(prog, cur)
 		if t.Chance(1, 6) && res.Outcome == OutCommit {
 			c.WalCheckpoint([]string{CkptPassive, CkptFull, CkptRestart, CkptTruncate}[t.Next(4)])
 		}
+	case cs.wal && t.Chance(1, 6):
+		// (back) into WAL mode
+		res = c.WriteTx(TxProgram{NewSize: cur.N(), Outcome: OutCommit, SetWAL: 1}, cur)
+		r.Count("writer.enter-wal." + res.Outcome)
 	default:
 		prog := GenProgram(t, cur.N(), cs.maxPages, 0)
 		res = c.WriteTx(prog, cur)
@@ -598,6 +619,14 @@ func (cs *clusterSim) audit() {
 			}
 			if n.Store.IsPrimary() {
 				disk = disk.LogicalCut() // SQLite's pending truncate after a shrinking commit
+			}
+			if jb, err := os.ReadFile(filepath.Join(dbDir, "journal")); err == nil && len(jb) >= 8 && bytes.Equal(jb[:8], journalMagic) {
+				// A transaction was cut off (demotion, lost lease) and neither
+				// SQLite nor LiteFS has rolled the hot journal back yet: the raw
+				// file is not a committed image by definition. Readers are
+				// covered by the reader oracle (they must roll back or fail).
+				r.Count("audit.hot-journal-skipped")
+				continue
 			}
 			if diff := DiffImages(disk, want); diff != "" {
 				r.Failf(cs.oracle("audit-image"), "%s at %s of %s: raw files differ from the image committed there: %s", n.Name, pos, db, diff)
